@@ -172,6 +172,18 @@ action go(a int) {
         // whether the validator objects is for the library to say (intent "probe")
         add(&format!("command-path-without-finish-{i}"), md(c), "probe");
     }
+    // a failing label before, between and after passing labels (labels are traced in name order)
+    let bad_fn = |n: &str| format!("function {n}() int {{\n    if false {{\n        return 1\n    }}\n}}\n");
+    let ok_fn = |n: &str| format!("function {n}() int {{\n    return 1\n}}\n");
+    let bad_act = |n: &str| format!("action {n}() {{\n    if true {{\n        publish Foo {{ a: 0 }}\n    }}\n}}\n");
+    let ok_act = |n: &str| format!("action {n}() {{\n    publish Foo {{ a: 0 }}\n}}\n");
+    for (i, (bad, oks)) in [("a_bad", vec!["z_ok"]), ("z_bad", vec!["a_ok"]), ("m_bad", vec!["a_ok", "z_ok"]), ("A_bad", vec!["Z_ok", "a_ok", "z_ok"]), ("zz_bad", vec!["Z_ok", "a_ok", "z_ok"])].iter().enumerate() {
+        let fns: String = oks.iter().map(|n| ok_fn(n)).collect();
+        let acts: String = oks.iter().map(|n| ok_act(&format!("{n}_act"))).collect();
+        add(&format!("invalid-order-fn-{i}"), md(&format!("{CMD_FOO}\n{}{fns}{acts}", bad_fn(bad))), "fails-validation");
+        add(&format!("invalid-order-action-{i}"), md(&format!("{CMD_FOO}\n{}{fns}{acts}", bad_act(bad))), "fails-validation");
+        add(&format!("invalid-order-both-{i}"), md(&format!("{CMD_FOO}\n{}{}{fns}", bad_fn(bad), bad_act(&format!("{bad}_act")))), "fails-validation");
+    }
     add("invalid-mixed-valid-and-invalid", md(&format!("{CMD_FOO}\naction ok() {{\n    publish Foo {{ a: 0 }}\n}}\nfunction bad() int {{\n    if false {{\n        return 1\n    }}\n}}\n")), "fails-validation");
 
     // ---- compile errors
@@ -448,14 +460,27 @@ fn main() {
                 }
             }
             // validate()'s bool and the tracer API must tell the same story, else the oracle is unclear
+            // The verdict on validation comes from the tracer API (does any label's trace report a
+            // failure), not from validate()'s own aggregation: validate() returning something else
+            // is a violation of the anchored mechanism "validator returns true when a trace fails".
+            let trace_fails = oracle["trace_failures"].as_u64().unwrap_or(0) > 0;
             let determinate = match stage.as_str() {
                 "parse-error" | "compile-error" => true,
-                "compiled" => {
-                    oracle["tracer_error"] == json!(false)
-                        && (oracle["validate_returned"] == json!(true)) == (oracle["trace_failures"].as_u64().unwrap_or(0) > 0)
-                }
+                "compiled" => oracle["tracer_error"] == json!(false),
                 _ => false,
             };
+            if stage == "compiled" && determinate && !stub {
+                m.eval();
+                if (oracle["validate_returned"] == json!(true)) != trace_fails {
+                    m.violation(
+                        "validate-return-disagrees-with-trace-failures",
+                        json!({"doc": d.name, "document": d.text, "library": oracle,
+                            "what": "validate() must return true exactly when some label's trace reports a failure"}),
+                    );
+                } else {
+                    m.count("validate_agrees_with_tracer", 1);
+                }
+            }
             for no_validate in [false, true] {
                 let flags = format!("{}{}", if stub { "--stub-ffi " } else { "" }, if no_validate { "--no-validate" } else { "" }).trim().to_string();
                 if let Some((_, of)) = &only
@@ -484,7 +509,7 @@ fn main() {
                 }
                 m.nontrivial(hash_of(&(d.name.as_str(), flags.as_str())));
                 let compiled = stage == "compiled";
-                let passes_validation = compiled && oracle["validate_returned"] == json!(false);
+                let passes_validation = compiled && !trace_fails;
                 let expect_success = compiled && (no_validate || passes_validation);
                 let success = code == Some(0);
                 if code == Some(101) {
